@@ -17,6 +17,14 @@ type Store struct {
 	mu     sync.Mutex
 	fail   map[string]bool
 	onRead bool
+	all    bool
+}
+
+// SetFailAll makes every Get fail (or heals the store).
+func (f *Store) SetFailAll(on bool) {
+	f.mu.Lock()
+	defer f.mu.Unlock()
+	f.all = on
 }
 
 // New wraps s; nothing fails until SetFailing is called.
@@ -49,6 +57,9 @@ func (b *badReader) Close() error { return nil }
 func (f *Store) Get(ctx context.Context, key string) (io.ReadCloser, error) {
 	f.mu.Lock()
 	bad, onRead := f.fail[key], f.onRead
+	if f.all {
+		bad, onRead = true, false
+	}
 	f.mu.Unlock()
 	if bad && onRead {
 		return &badReader{n: 3}, nil
